@@ -264,6 +264,13 @@ def coq_dir_result(c, r):
     return f'(Series {steps} {nd} {ed})'
 
 
+CFG_OK_V = """From Coq Require Import String List.
+From FV.C02.gen Require Import ResCfg.
+Theorem C02_series_single_ok : series_single_ok = true.
+Proof. reflexivity. Qed.
+"""
+TOKEN_RE = re.compile(r'^-?\d(\.\d+)?E[+-]\d+$')
+
 HEADER = ['From Coq Require Import ZArith String List. Import ListNotations.',
           'From FV.C04 Require Import Text Model Corr.', 'From FV.C02 Require Import Model Corr.',
           'From FV.C02.gen Require Import ResCfg.', 'Open Scope string_scope.', 'Set Printing Width 100000.']
@@ -445,6 +452,14 @@ def check_cases(ctx, cases, tag, tie_ok, cfg):
     res = run_impl(ctx, cases)
     oracle_bad = {}
     for c in cases:
+        for f in c['files']:
+            for sec in (f['content']['nodal'], f['content']['elemental']):
+                for _, vals in (sec['rows'] if sec else []):
+                    for tk in vals:
+                        # the section hypotheses on value tokens, checked on every generated token
+                        if not TOKEN_RE.match(tk) or 'T' in tk or tok(float(tk)) != tk:
+                            ctx.count('token_hypothesis_failures')
+    for c in cases:
         r = res[c['id']]
         outcome = 'build_error' if 'build_error' in r else 'read_error' if 'read_error' in r else 'ok'
         ctx.count('impl:' + outcome)
@@ -551,6 +566,15 @@ def main(ctx):
         for n in lib.theorem_names(lib.COQ / 'C02' / 'Props.v'):
             ctx.obligations.append({'name': n, 'discharged': False, 'assumptions': [],
                                     'note': 'translator failed closed'})
+    # per-run obligation: the time-series branch accepts a single result file
+    single_ok = False
+    if tie_ok and proof_ok:
+        rc, out, err = ctx.coq_eval('CfgOk', CFG_OK_V)
+        single_ok = rc == 0
+        note = '' if single_ok else ('series_single_ok = false: read_files iterates over the lines of the only '
+                                     'result file (see C02_single_file_series_refuted and the replayed input)')
+        ctx.obligations.append({'name': 'C02_series_single_ok', 'discharged': single_ok, 'assumptions': [],
+                                'note': note})
     model_ok = False
     if tie_ok:
         model_ok, log, _ = lib.coq_make(['C02/Corr.vo', 'C02/gen/ResCfg.vo'])
